@@ -106,7 +106,7 @@ func propSpecs() map[string]*PropSpec {
 			Own:     func(o *Obligation) bool { return strings.Contains(o.Name, "C16:") },
 			Decided: []string{"format: exactly one call of the formatter on the given text; on a formatter error exit status 1 and no file-system effect; with -f exactly one WriteFile(file, result); without -f exactly one stdout line result+\"\\n\" and no file-system effect", "C export: formatter called on GoString(dsl), returns CString(result) or CString(\"Error:\"+err)", "compile: ParseFile called once on the input; see evidence for the per-target clauses"},
 			OutOfReach: []string{"cobra flag parsing and command dispatch, cgo string conversion (trusted library contracts)"}},
-		"C08": {ID: "C08", Kinds: []string{"POST", "FRAME", "PRE", "SAFE"}, FuncMatch: regexp.MustCompile(`PacketDslVisitorImpl\)\.(VisitFieldDefinitionWithAttribute|VisitFieldDefinition|VisitMetaField|metaDataDeclarationToField|metaDataDeclarationToMetaData)$|model\.NewConfiguration$`),
+		"C08": {ID: "C08", Kinds: []string{"POST", "FRAME", "PRE", "SAFE"}, FuncMatch: regexp.MustCompile(`PacketDslVisitorImpl\)\.(VisitFieldDefinitionWithAttribute|VisitFieldDefinition|VisitMetaField|metaDataDeclarationToField|metaDataDeclarationToMetaData|VisitPacketDefinition)$|model\.NewConfiguration$`),
 			Own: func(o *Obligation) bool {
 				return strings.Contains(o.Name, "C08:") || o.Kind == "FRAME" && !o.PhaseB
 			},
